@@ -67,7 +67,15 @@ Section Log.
   | SpUpdate (now m : Z) (attrs : list (option V)) (ts : option Z)   (* ts None: the clock value is the timestamp *)
   | SpCleanup (now : Z)
   | SpPop (m : Z)
-  | SpOther.                                                          (* (un)registering a callback *)
+  | SpOther                                                           (* (un)registering a callback *)
+  | SpInsert (now m : Z) (attrs : list (option V)) (ts : option Z)    (* an update handed to the table directly: not
+                                                                         subject to the ordered-stream rule, no expiry *)
+  | SpSetTtl (ttl : option Z)                                         (* a new TTL is configured *)
+  | SpUnordered.                                                      (* the tracker is switched to unordered mode *)
+
+  (* the configuration after an operation: only the two configuration operations change it *)
+  Definition sp_mode (ordered : bool) (op : sp_op) : bool := match op with SpUnordered => false | _ => ordered end.
+  Definition sp_ttl_after (ttl : option Z) (op : sp_op) : option Z := match op with SpSetTtl t => t | _ => ttl end.
 
   (* One step.  [expired] = the MMSIs removed by expiry during this operation.  Which MMSIs these have to be is
      C13's business: C12 takes them from the DELETED events of the step, [sp_step_exact] computes them. *)
@@ -78,13 +86,17 @@ Section Log.
       if sp_rejected ordered m t log then log else map SRem expired ++ SUpd m a t :: log
     | SpCleanup _ => map SRem expired ++ log
     | SpPop m => SRem m :: log
-    | SpOther => log
+    | SpInsert now m a ts =>
+      let t := match ts with Some t => t | None => now end in
+      if sp_older t m log then log else SUpd m a t :: log
+    | SpOther | SpSetTtl _ | SpUnordered => log
     end.
 
+  (* [ordered] = the mode at the start; each step is judged by the mode in force when it happens *)
   Fixpoint sp_run (ordered : bool) (log : sp_log) (h : list (sp_op * list Z)) : sp_log :=
     match h with
     | [] => log
-    | (op, expired) :: r => sp_run ordered (sp_step ordered log op expired) r
+    | (op, expired) :: r => sp_run (sp_mode ordered op) (sp_step ordered log op expired) r
     end.
 
   (* C13 as part of the map specification: exactly the tracks whose age has reached the TTL expire *)
@@ -103,11 +115,21 @@ Section Log.
       else let log1 := SUpd m a t :: log in map SRem (sp_expired ttl now log1) ++ log1
     | SpCleanup now => map SRem (sp_expired ttl now log) ++ log
     | SpPop m => SRem m :: log
-    | SpOther => log
+    | SpInsert now m a ts =>
+      let t := match ts with Some t => t | None => now end in
+      if sp_older t m log then log else SUpd m a t :: log
+    | SpOther | SpSetTtl _ | SpUnordered => log
+    end.
+
+  (* [ttl], [ordered] = the configuration at the start; each step is judged by the configuration in force *)
+  Fixpoint sp_run_exact_from (ttl : option Z) (ordered : bool) (log : sp_log) (h : list sp_op) : sp_log :=
+    match h with
+    | [] => log
+    | op :: r => sp_run_exact_from (sp_ttl_after ttl op) (sp_mode ordered op) (sp_step_exact ttl ordered log op) r
     end.
 
   Definition sp_run_exact (ttl : option Z) (ordered : bool) (h : list sp_op) : sp_log :=
-    fold_left (sp_step_exact ttl ordered) h [].
+    sp_run_exact_from ttl ordered [] h.
 End Log.
 Arguments sp_entry V : clear implicits.
 Arguments sp_log V : clear implicits.
